@@ -109,6 +109,18 @@ contract(f"{OV}::Overlay.unload", "Overlay.unload",
          ensures=["len(calls('remove_listener')) == 1", "self._shutdown"],
          note="the overlay stops listening and its task manager is shut down")
 
+for _nb in (0, 1, 2, 3):
+    contract("ipv8/community.py::Community.unload", f"Community.unload.every-bootstrapper[{_nb}]",
+             vars={"b1": EFFECT("boot1", unload={}), "b2": EFFECT("boot2", unload={}), "b3": EFFECT("boot3", unload={}),
+                   "self": OBJ("ipv8/community.py::Community", endpoint=EFFECT("endpoint", remove_listener={}),
+                               bootstrappers=EXPR(f"[b1, b2, b3][:{_nb}]"), _pending_tasks=EXPR("{}"), _shutdown_tasks=EXPR("[]"),
+                               _task_lock=EXPR("nullcontext()"), _shutdown=BOOL, _logger=LOGGER())},
+             call="run_coro(self.unload())", raises=[],
+             ensures=[f"[len(calls('boot%d.unload' % i)) for i in (1, 2, 3)] == [1, 1, 1][:{_nb}] + [0, 0, 0][{_nb}:]",
+                      "len(self.bootstrappers) == 0", "len(calls('remove_listener')) == 1", "self._shutdown"],
+             bounded=f"{_nb} bootstrappers",
+             note="every bootstrapper (each may hold a socket or a periodic task) is unloaded exactly once, none is skipped")
+
 # ---------------------------------------------------------------------------------------------------------------------
 # tunnel overlay: removal tasks
 
@@ -143,6 +155,9 @@ contract(f"{TC}::TunnelCommunity.remove_exit_socket", "remove_exit_socket.closes
          vars={"hc1": HOP(), "self": TCOMM(), "cid": INT, "now": BOOL, "U": EXPR(f"undecorated({TCLS}, 'remove_exit_socket')")},
          requires=["cid in self.exit_sockets", "self.exit_sockets[cid].enabled", "self.settings.remove_tunnel_delay >= 0"],
          call="run_coro(U(self, cid, 'x', now, False))", raises=[], stubs=RM_STUBS,
+         # while the removal task is suspended (grace delay) the socket is still registered: an unload() in that window finds it,
+         # removes it now and awaits that - instead of cancelling a task that alone knows about an open socket
+         on_effect={"await:sleep": ["cid in self.exit_sockets", "len(calls('close')) == 0"]},
          ensures=["len(calls('close')) == 1", "len(calls('sock_shutdown')) == 1"],
          note="an enabled exit socket is closed (its outside sockets released) when its entry is removed")
 
@@ -179,3 +194,9 @@ def link_cep(cep, overlay):
     """the cell pre-processor forwards to the overlay (as set up by setup_tunnels)"""
     cep.tunnel_community = overlay
     return True
+
+# BOUNDED native stand-in (one concrete history on the real classes and a real event loop - not a proof)
+native("unload-scenario", "scenarios/c11_unload.py",
+       bound="one history: default TunnelSettings (remove_tunnel_delay = 5 s), one enabled exit socket, unload(), one late datagram",
+       functions=[f"{TC}::TunnelCommunity.unload", f"{TC}::TunnelCommunity.remove_exit_socket"],
+       note="the exit socket is closed and its entry gone when unload returns; a datagram arriving afterwards reaches no handler")
